@@ -37,6 +37,8 @@ type EntrySpec struct {
 	Bound         string         `json:"bound"`
 	SelfCheck     int            `json:"self_check"`
 	TimeoutMs     int            `json:"solver_timeout_ms"`
+	Unwind        int            `json:"unwind"`
+	Fallback      string         `json:"fallback"`
 }
 
 type UnitSpec struct {
@@ -84,6 +86,8 @@ type entryReport struct {
 	Violations int            `json:"violations"`
 	SelfCheck  int            `json:"native_agreement_runs"`
 	Solver     string         `json:"solver"`
+	Fallback   string         `json:"fallback_solver,omitempty"`
+	Rescued    int            `json:"queries_decided_by_fallback,omitempty"`
 }
 
 // ---------------------------------------------------------------------
@@ -262,6 +266,8 @@ func (c *checker) runEntry(p *Program, u UnitSpec, e EntrySpec, work string) {
 	cfg.InvisibleAtomics = e.InvisAtomics
 	cfg.MapReverse = e.MapReverse
 	cfg.SymIndexLimit = e.SymIndexLimit
+	cfg.Unwind = e.Unwind
+	cfg.Fallback = e.Fallback
 	cfg.SolverTimeoutMs = e.TimeoutMs
 	if cfg.SolverTimeoutMs == 0 {
 		if c.tier == "thorough" {
@@ -269,6 +275,9 @@ func (c *checker) runEntry(p *Program, u UnitSpec, e EntrySpec, work string) {
 		} else {
 			cfg.SolverTimeoutMs = 20000
 		}
+	}
+	if v := os.Getenv("GOSX_TIMEOUT_MS"); v != "" {
+		cfg.SolverTimeoutMs, _ = strconv.Atoi(v)
 	}
 	cfg.Seed = c.seed
 	if e.Replay != "engine" && e.Replay != "none" {
@@ -291,6 +300,8 @@ func (c *checker) runEntry(p *Program, u UnitSpec, e EntrySpec, work string) {
 	if rep.Solver == "" {
 		rep.Solver = "z3"
 	}
+	rep.Fallback = e.Fallback
+	rep.Rescued = r.Rescued
 	for k := range r.Reached {
 		rep.Reached = append(rep.Reached, k)
 	}
